@@ -69,6 +69,18 @@ func nested(s d.S) {
 """
 
 
+TCTX_SRC = """package tctx
+
+import "m/d"
+
+// helper is a test helper itself: what it uses is exempt.
+// @testonly
+func helper(s d.S) int {
+	return d.TF(1) + s.TM(2) + d.TT{X: 3}.X
+}
+"""
+
+
 def probe():
     src, where = gen_all.use_file("p", "p/a.go")
     src2, _ = gen_all.use_file("w", "w/a.go")
@@ -83,8 +95,9 @@ def probe():
         {"path": "m/zzgen", "name": "g", "files": [{"name": "zzgen/g.go", "src": GEN_SRC}]},
         {"path": "m/ig", "name": "ig", "files": [{"name": "ig/ig.go", "src": IGN_SRC}]},
         {"path": "m/nest", "name": "nest", "files": [{"name": "nest/n.go", "src": NEST_SRC}]},
+        {"path": "m/tctx", "name": "tctx", "files": [{"name": "tctx/t.go", "src": TCTX_SRC}]},
     ]}
-    cls = {"w/a.go": "regular2", "p/a.go": "regular", "p/a_test.go": "test", "xtestdatax/q.go": "tdpath", "xtestdatax/q_test.go": "tdtest", "zzgen/g.go": "genpath", "ig/ig.go": "ignored", "nest/n.go": "nested"}
+    cls = {"w/a.go": "regular2", "p/a.go": "regular", "p/a_test.go": "test", "xtestdatax/q.go": "tdpath", "xtestdatax/q_test.go": "tdtest", "zzgen/g.go": "genpath", "ig/ig.go": "ignored", "nest/n.go": "nested", "tctx/t.go": "tctx"}
     return prog, cls
 
 
